@@ -505,7 +505,7 @@ def _check_disabled_arm(eng, f, la, st, acc, user, ent):
         return False, "disabled arm calls a locking helper"
     args = [f.s(a) for a in call["args"]]
     if len(args) > 2:
-        r = eng.handle_ctor_lock(f, la, call, f.pos_of(call))
+        r = eng.handle_ctor_lock(f, la, call, f.pos_of(call)) or eng.handle_ctor_lock(f, eng.locks(f), call, f.pos_of(call))
         if r is None:
             return False, "cannot read what this handle constructor does with its lock"
         if r[0].st != UNOWNED:
@@ -523,7 +523,13 @@ def _check_disabled_arm(eng, f, la, st, acc, user, ent):
     elif a1["k"] == "InitListExpr" and not a1.get("ch"):
         pass
     else:
-        return False, "lock argument in the disabled arm is not default-constructed (%s)" % a1["k"]
+        # any lock object that owns nothing at this point (a default-constructed local that is moved in, a deferred lock)
+        # (la may have been computed under the assumption that locking is enabled, where this arm is dead code)
+        v = eng._lock_value(f, la, args[1], f.pos_of(call)) or eng._lock_value(f, eng.locks(f), args[1], f.pos_of(call))
+        if v is None or v.st != UNOWNED:
+            return False, "lock argument in the disabled arm is not a lock that owns nothing (%s, state %s)" % (
+                a1["k"], v.st if v is not None else "unknown")
+        return True, ""
     for d in f.descendants(call):
         if d["k"] == "MemberExpr" and d["m"]["name"] == ent["guard"]:
             return False, "disabled arm references the mutex"
